@@ -430,7 +430,10 @@ fn scratch_root(prop: &str) -> PathBuf {
     base.join(prop).join(format!("db-{}", std::process::id()))
 }
 
-pub struct Sut { db: Option<Database>, dir: PathBuf, seq: u64, tables: u64 }
+pub struct Sut { db: Option<Database>, dir: PathBuf, seq: u64, tables: u64,
+    /// C42 only: statements run before every CREATE TABLE (configuration pragmas) and the number of
+    /// filler tables (each with a secondary index and one row) that are scanned before every statement
+    pub pre: Vec<String>, pub filler: usize }
 
 fn to_val(o: &OwnedValue) -> Option<Val> {
     match o {
@@ -447,7 +450,7 @@ fn to_rows(rs: &[turdb::Row]) -> Option<Vec<Vec<Val>>> {
 }
 
 impl Sut {
-    pub fn new(prop: &str) -> Sut { Sut { db: None, dir: scratch_root(prop), seq: 0, tables: 0 } }
+    pub fn new(prop: &str) -> Sut { Sut { db: None, dir: scratch_root(prop), seq: 0, tables: 0, pre: vec![], filler: 0 } }
     pub fn cleanup(&mut self) { self.db = None; let _ = std::fs::remove_dir_all(&self.dir); }
     /// a database for the next history: a fresh one every 40 tables (and after any panic)
     fn fresh_table(&mut self, sch: &Schema) -> Result<String, String> {
@@ -463,11 +466,23 @@ impl Sut {
                 Caught::Done(Err(e)) => return Err(e),
                 Caught::Panicked(m) => return Err(format!("panic in create: {}", m)),
             }
+            for i in 0..self.filler {
+                let db = self.db.as_ref().unwrap();
+                for q in [format!("CREATE TABLE f{} (c0 BIGINT PRIMARY KEY, c1 BIGINT)", i), format!("CREATE INDEX f{}_x ON f{} (c1)", i, i), format!("INSERT INTO f{} VALUES ({}, {})", i, i, i + 1000)] {
+                    match catch(std::panic::AssertUnwindSafe(|| db.execute(&q).map(|_| ()).map_err(|e| format!("{}: {:#}", q, e)))) {
+                        Caught::Done(Ok(())) => {}
+                        Caught::Done(Err(e)) => { self.db = None; return Err(e); }
+                        Caught::Panicked(m) => { self.db = None; return Err(format!("panic in {}: {}", q, m)); }
+                    }
+                }
+            }
         }
         self.tables += 1;
         let name = format!("t{}", self.tables);
         let db = self.db.as_ref().unwrap();
-        let mut ddl = vec![format!("PRAGMA wal={}", if sch.wal { "ON" } else { "OFF" }), sch.create_sql(&name)];
+        let mut ddl = vec![format!("PRAGMA wal={}", if sch.wal { "ON" } else { "OFF" })];
+        ddl.extend(self.pre.iter().cloned());
+        ddl.push(sch.create_sql(&name));
         if sch.xidx && sch.ncols() > 1 { ddl.push(format!("CREATE INDEX {}_c1x ON {} (c1)", name, name)); }
         for q in ddl {
             match catch(std::panic::AssertUnwindSafe(|| db.execute(&q).map(|_| ()).map_err(|e| format!("{}: {:#}", q, e)))) {
@@ -513,7 +528,14 @@ impl Sut {
         let mut dead = false;
         for s in h {
             if dead { out.push(HObs { res: Res::Bad("after panic".into()), rows: None, cnt: None }); continue; }
+            let mut filler_bad = false;
+            for j in 0..self.filler {
+                // more table + index files than the open-file limit: every statement runs after the LRU was cycled
+                let want = Some(vec![vec![Val::Int(j as i64), Val::Int(j as i64 + 1000)]]);
+                if self.query(&format!("SELECT * FROM f{}", j)) != want { filler_bad = true; }
+            }
             let res = self.exec(&s.to_sql(sch, &name));
+            let res = if filler_bad { Res::Bad("filler table changed".into()) } else { res };
             let rows = self.query(&format!("SELECT * FROM {}", name));
             let cnt = self.query(&format!("SELECT COUNT(*) FROM {}", name)).and_then(|r| match r.as_slice() { [row] => match row.as_slice() { [Val::Int(c)] => Some(*c), _ => None }, _ => None });
             if res == Res::Panic { dead = true; self.db = None; }
